@@ -875,7 +875,7 @@ def replay(ck, path):
 
 def main():
     ck = Check("C10", "proof")
-    ck.lean_stage(["VelaVerif.Props.C10"])
+    ck.lean_stage(["VelaVerif.Props.C10", "VelaVerif.Props.C10Src"])
     if ck.replay_arg:
         replay(ck, ck.replay_arg)
     common.setup_repo_path()
